@@ -9,7 +9,7 @@ from .. import model as M
 
 ID = "C13"
 RULE = ("Generated programs whose string literals (group labels, predicate operands, tuple members) and salt are drawn from an "
-        "adversarial alphabet (' \" \\ ( ) + { } % , # ; and payloads such as '+str(__pyab_sentinel__())+', ');f();(', "
+        "adversarial alphabet (' \" \\ ( ) + { } % , # ; raw CR / FF / VT / NEL / LS characters, and payloads such as '+str(__pyab_sentinel__())+', ');f();(', "
         "{0.__class__}, %s, \\x27, trailing backslash, triple quotes). Oracles: (i) the Python AST of "
         "PythonCodeGen(...).generate() in both layouts and of generate_code(...) in both layouts, with every constant masked, "
         "equals that of the twin program in which every string is replaced by \"x\" (unparsable output counts as a "
@@ -29,6 +29,8 @@ PAYLOADS = [
     "\\\\'+str(__pyab_sentinel__())+'", "{__pyab_sentinel__()}", "{0.__class__}", "%s", "%(x)s", "\\", "a\\", "\\\\", "'''", '"""',
     "\\x27+str(__pyab_sentinel__())+\\x27", "\\N{APOSTROPHE}", "#", "'#", "' #", "x' # y", "a,b", "(", ")", "()", "+", "__pyab_sentinel__()",
     "'; import os; '", "',__pyab_sentinel__(),'", "'], weights=[1]) or __pyab_sentinel__() or partial(deterministic_choice, population=['",
+    "a\rimport os", "x\r__pyab_sentinel__()\r#", "\r", "line1\rline2", "a\x0cb", "\x0c__pyab_sentinel__()", "\u2028x", "\x85y",
+    "\x0b", "\r__pyab_sentinel__()", "s\r\t__pyab_sentinel__()",
     "it's", 'say "hi"', "plain", "\\n", "\\t'", "${x}", "`x`", "'+'", "\\'", 'a" + __pyab_sentinel__() + "b',
 ]
 
@@ -56,7 +58,7 @@ GOOD_PAYLOADS = [p for p in PAYLOADS if _ok_str(p)]
 def adv_str(draw):
     if draw(st.integers(0, 3)):
         return draw(st.sampled_from(GOOD_PAYLOADS))
-    s = "".join(draw(st.lists(st.sampled_from(list("'\\()+{}%,#; ab_") + [SENTINEL + "()"]), max_size=12)))
+    s = "".join(draw(st.lists(st.sampled_from(list("'\\()+{}%,#; ab_\r\x0c") + [SENTINEL + "()"]), max_size=12)))
     if '"' in s and "'" in s:
         s = s.replace('"', "")
     return s
